@@ -1054,7 +1054,29 @@ func analyseTimedWait(as AnalysisSpec, progs []*Program, cs *Contracts, funcs []
 				}
 			}
 		}
+		timedCallees := map[string]bool{}
+		for _, a := range strings.Split(as.Args["timed_callees"], ",") {
+			if a = strings.TrimSpace(a); a != "" {
+				timedCallees[a] = true
+			}
+		}
+		maxWaits, _ := strconv.Atoi(as.Args["max_waits"])
 		for _, pe := range fr.PathEnds {
+			// one deadline per call: a path may wait (timed select, allowed blocking call, callee that waits
+			// under the same timeout) at most max_waits times, otherwise the waits add up beyond the timeout
+			if maxWaits > 0 {
+				waits := 0
+				where := ""
+				for _, ev := range pe.S.Trace {
+					if ev.Kind == "select" && ev.Blocking || ev.Kind == "call" && ((ev.Blocking || ev.Extra["blocking"] != "") && allow[ev.What] || timedCallees[ev.What]) {
+						waits++
+						where += " " + ev.Pos
+					}
+				}
+				if waits > maxWaits {
+					o1.Result, o1.Why = "failed", fmt.Sprintf("a path waits %d times under the same timeout (at%s): the waits add up beyond the call's timeout", waits, where)
+				}
+			}
 			for _, ev := range pe.S.Trace {
 				switch ev.Kind {
 				case "recv":
